@@ -12,6 +12,7 @@ func init() { props["C24"] = checkC24 }
 func checkC24(r *Run) {
 	r.Explain = "(R1++) all-or-nothing: in pending/connected/introduced/remove/updateMirror no error return is reachable after a bookkeeping map was written; (R1+) the listen-address index is a multi-map: insertions append to the list stored under the key, never replace it; C24: (R1) the five bookkeeping maps of daemon.Connections are written only by pending / connected / introduced(+updateMirror) / remove, and every insertion has a matching deletion in remove under the same condition: the IP+mirror entry is inserted only on the introduced transition and deleted only for an introduced connection; an incoming listen address is indexed only when non-empty and removed when non-empty; per-IP counts are incremented for every new connection and their key deleted when the count returns to zero; gnet ids and the connection record are deleted unconditionally; (R2) a connection becomes introduced only from the connected state with the matching gnet id after the IP+mirror pair was found free (key-presence test), and connected() refuses connected/introduced records; (R3) every access to the maps happens with the Connections mutex held."
 	r.NotDec = "equality of the maps with the live set for concrete event sequences"
+	ruleNoCrossedConfig(r, "C24-R0")
 	maps := []string{"conns", "ipCounts", "gnetIDs", "mirrors", "listenAddrs"}
 	allowedWriters := map[string]bool{"daemon.Connections.pending": true, "daemon.Connections.connected": true, "daemon.Connections.introduced": true, "daemon.Connections.remove": true, "daemon.Connections.updateMirror": true, "daemon.NewConnections": true}
 	type site struct {
